@@ -1,5 +1,7 @@
 package c09
 
+import "strings"
+
 // The committed deny list: functions that are not driven, with the reason. Blocking or terminating by
 // documented design is not a hang and not a fault; rebinding the interpreter's own globals makes the
 // later calls of the same worker meaningless.
@@ -69,7 +71,13 @@ func endlessByDefinition(c Case) bool {
 	if c.Mode == "r" {
 		return c.Args[0] == "lamx" && c.Args[1] == "lamx"
 	}
-	return quotedInForm[c.Args[0]] && quotedInForm[c.Args[1]]
+	return quoted(c.Args[0]) && quoted(c.Args[1])
+}
+
+// quoted: is the argument put into a mode "q" form as (quote x)? Pool lists and symbols, and literal
+// descriptors whose source makes a list or a symbol.
+func quoted(d string) bool {
+	return quotedInForm[d] || strings.HasPrefix(d, "e:(list") || strings.HasPrefix(d, "e:(cons") || strings.HasPrefix(d, "e:'")
 }
 
 func notDriven(c Case) bool {
